@@ -97,8 +97,8 @@ Print Assumptions C15_pathmodel_top_position_refuted.
 Example C15_pathmodel_example :
   swf ex_S = true /\ dwf ex_S ex_t = true /\ quotes_ok ex_t = true /\
   List.length (all_pos ex_t O) = 31%nat /\ forallb (own_ok ex_S ex_t) (all_pos ex_t O) = true /\
-  path_of ex_t [0; 0; 4; 1]%nat = Some (sb "/m1:c/l[k1='a b'][k.2=""[x]'y/""]/inner[id='i""1']/ll[.='p/q\']") /\
-  path_of ex_t [0; 0; 3]%nat = Some (sb "/m1:c/l[k1='a b'][k.2=""[x]'y/""]/m2:k1") /\
+  path_of ex_t [0; 0; 3; 2]%nat = Some (sb "/m1:c/l[k1='a b'][k.2=""[x]'y/""]/inner[id='i""1']/ll[.='p/q\']") /\
+  path_of ex_t [0; 0; 5]%nat = Some (sb "/m1:c/l[k1='a b'][k.2=""[x]'y/""]/m2:k1") /\
   path_of ex_t [0; 2]%nat = Some (sb "/m1:c/m2:c") /\
   path_of ex_t [1; 2; 0]%nat = Some (sb "/m1:st/kl[3]/x") /\
   path_of ex_t [1; 4]%nat = Some (sb "/m1:st/sl[2]") /\
